@@ -4,7 +4,7 @@ from props.common import *   # noqa
 from engine import conc
 from props.C07 import fold
 
-W_ARGS = dict(pids=["a", "b"], contents=[C_ONE], formats=[None, "c"], fake_cid=False,
+W_ARGS = dict(pids=["a", "b"], contents=[C_ONE], formats=[None, "c", "d"], fake_cid=False,
               docs=[D_ONE, D_MULTI15])
 
 INITS = [
@@ -44,6 +44,12 @@ def scenarios_for(tier, triples=False):
             out.append(("%s || from: %s" % (" || ".join(c.label for c in calls), INITS[2][0]), INITS[2][1], calls))
             calls = [step.StoreMeta(0, 1, "c"), step.DeleteMeta(0, None, all_docs=True), step.StoreMeta(1, 0, "c")]
             out.append(("%s || from: %s" % (" || ".join(c.label for c in calls), INITS[2][0]), INITS[2][1], calls))
+            # delete-all against the deletion of one of three documents (whichever comes first, in the middle or last
+            # in the directory listing): afterwards no document of the pid may be left
+            three = ("three documents of a present", {"meta_0_0": 0, "meta_0_1": 0, "meta_0_2": 1})
+            for f in ("ns", "c", "d"):
+                calls = [step.DeleteMeta(0, None, all_docs=True), step.DeleteMeta(0, f)]
+                out.append(("%s || from: %s" % (" || ".join(c.label for c in calls), three[0]), three[1], calls))
             # unrelated documents that share nothing but directories: only the directories of (a,c) exist
             import posixpath
             needed = {posixpath.dirname(w.META[0][w.cell("c")])}
@@ -57,11 +63,26 @@ def scenarios_for(tier, triples=False):
     return fn
 
 
+def claim_scenarios(tier):
+    """the metadata-document list: two writers and two deleters of one document, with two preemptions in every tier
+    (see C07.claim_scenarios)"""
+    def fn(w):
+        out = []
+        for calls, init in (([step.StoreMeta(0, 0, "c"), step.StoreMeta(0, 1, "c")], INITS[1]),
+                            ([step.DeleteMeta(0, "c"), step.DeleteMeta(0, "c")], INITS[1]),
+                            ([step.DeleteMeta(0, None, all_docs=True), step.StoreMeta(0, 1, "c")], INITS[1])):
+            out.append(("%s || from: %s (two preemptions)" % (" || ".join(c.label for c in calls), init[0]), init[1], calls))
+        return out
+    return fn
+
+
 def main(tier, replay_payload=None):
     bound = 2 if tier == "thorough" else 1
     sf = scenarios_for(tier)
 
     def replayer(p):
+        if p.get("claim"):
+            return conc.replay_schedule(W_ARGS, claim_scenarios(tier), p["k"], p["log"], p["bound"], p["clauses"][0])
         fn = scenarios_for(tier, triples=True) if p.get("triples") else sf
         return conc.replay_schedule(W_ARGS, fn, p["k"], p["log"], p["bound"], p["clauses"][0])
     if replay_payload is not None:
@@ -73,6 +94,11 @@ def main(tier, replay_payload=None):
     from engine import battery
     battery.validate(run)
     fold(run, outs, "LIN:", bound)
+    if bound < 2:
+        before = set(run.failures)
+        fold(run, conc.explore_scenarios(W_ARGS, claim_scenarios(tier), 2), "LIN:", 2)
+        for sig in set(run.failures) - before:
+            run.failures[sig]["payload"]["claim"] = True
     if tier == "thorough":
         outs3 = conc.explore_scenarios(W_ARGS, scenarios_for(tier, triples=True), 1)
         before = set(run.failures)
